@@ -2,11 +2,23 @@
 from __future__ import annotations
 
 from datetime import datetime
+from decimal import Decimal
 
 import construct  # type: ignore
 
 from han import cosem, obis_map
 from han.obis import Obis
+
+def _scale(unscaled_value: int, exponent: int) -> Decimal:
+    """
+    Return unscaled_value * 10^exponent as an exact Decimal.
+
+    The number is built from its digits. A Decimal multiplication would be rounded to the precision of the
+    caller's decimal context (a register of 123456789 becomes 123457000 when the application uses 6 digits).
+    """
+    digits = tuple(int(digit) for digit in str(abs(unscaled_value)))
+    return Decimal((int(unscaled_value < 0), digits, exponent))
+
 
 Element: construct.Struct = construct.Struct(
     construct.Const(
@@ -35,7 +47,7 @@ Element: construct.Struct = construct.Struct(
             "scaler_unit" / cosem.ScalerUnitField,
             "value"
             / construct.Computed(
-                construct.this.unscaled_value * construct.this.scaler_unit.scaler.scale
+                lambda ctx: _scale(ctx.unscaled_value, ctx.scaler_unit.scaler.exponent)
             ),
         ),
     ),
